@@ -34,6 +34,7 @@ type cbLog struct {
 	initAt    int // number of non-init callbacks (markers included) seen before the first init
 	total     int
 	nilObjs   int
+	nilInit   int // nil entries in the listing handed to OnInitialize
 	overlap   string
 	afterDone string
 	markSeen  int
@@ -120,6 +121,9 @@ func (c *cbLog) handler() kcache.Handler {
 				if o != nil && o.GetNamespace() == markerNS {
 					c.sawMarker(objVersion(o))
 					continue
+				}
+				if o == nil {
+					c.nilInit++
 				}
 				keep = append(keep, o)
 			}
